@@ -254,6 +254,10 @@ class StmtInferrer(ast.NodeVisitor):
         self.visit(elt)
       self.rtype = original_stype
       return original_stype
+    # Unknown value: the targets are still visited, so that what an earlier
+    # visit recorded for them does not stay behind.
+    for elt in node.elts:
+      self.visit(elt)
     return None
 
   def visit_Tuple(self, node):
